@@ -1,14 +1,17 @@
 (* MonitorReduce.v -- the reduction from micro-steps to atomic sections, for programs with data
-   (single RW mutex, sections not nested, no goroutine creation; Monitor.v section Data).
+   (Monitor.v section Data): one outer RW mutex (mutex 0) per object, inner mutexes taken only
+   inside an exclusive outer section (DeferredCarWriter.lk -> StorageCar.mu), hand-off of a shared
+   section to a new goroutine that finishes it (ReadOnly.AllKeysChan), goroutines started inside an
+   exclusive section that do nothing before they lock or return (ReadWrite.AllKeysChan).
    Every execution of the micro-step machine, in which the reads and writes of different threads
    interleave arbitrarily, is simulated by an execution of the atomic-section machine, in which
-   each critical section runs from its acquire to its release in ONE step and there is no lock
-   state at all: the atomic machine takes a section's step when the micro-step machine performs
-   that section's release (so the sections are ordered by their releases, each between its call's
-   first and last action), threads that hold no lock are in the same state in both machines, and
-   whenever no writer is inside a section the two stores are equal.  In particular every
-   terminated micro-step execution ends with the store and the return values of a sequence of
-   atomically executed sections.  Hypothesis: the lock discipline [pok] on every thread. *)
+   each critical section runs from the acquisition of mutex 0 to its release in ONE step and
+   there is no lock state at all.  The atomic machine takes a section's step when the micro-step
+   machine performs that section's release of mutex 0 -- or, for a shared section that is handed
+   off, at the hand-off (the store cannot change while a shared section is open) -- i.e. between
+   the call's first and last action.  Threads that hold no lock are in the same state in both
+   machines, and whenever no writer is inside a section the two stores are equal.
+   Hypothesis: the lock discipline [pok] on every thread. *)
 From Coq Require Import List Arith Bool Lia.
 Import ListNotations.
 From GoCar Require Import Monitor.
@@ -17,50 +20,84 @@ From GoCarProofs Require Import MonitorDRF.
 Section Reduce.
 Variables V R : Type.
 Variable exempt : nat -> bool.
+Variable guard : nat -> nat.
 Notation prog := (prog V R).
 Notation store := (store V).
 Notation dthread := (dthread V R).
 Notation dcfg := (dcfg V R).
 Notation acfg := (acfg V R).
-Notation pok := (pok V R exempt).
+Notation pok := (pok V R exempt guard).
 Notation dstep := (dstep V R).
 Notation dsteps := (dsteps V R).
 Notation astep := (astep V R exempt).
 Notation asteps := (asteps V R exempt).
 Notation sec_run := (sec_run V R).
+Notation quiet := (quiet V R).
 
 Definition seq (s1 s2 : store) : Prop := forall f, s1 f = s2 f.
-Definition sres_eq (a b : store * prog) : Prop := snd a = snd b /\ seq (fst a) (fst b).
+(* two section runs agree: same continuation, same store, and the goroutines of the first are
+   [pend] (already started) followed by those of the second *)
+Definition sec3_eq (a b : store * prog * list prog) (pend : list prog) : Prop :=
+  snd (fst a) = snd (fst b) /\ seq (fst (fst a)) (fst (fst b)) /\ snd a = pend ++ snd b.
 
 Lemma seq_refl s : seq s s. Proof. intro; reflexivity. Qed.
 Lemma seq_sym s t : seq s t -> seq t s. Proof. intros H f. symmetry. apply H. Qed.
 Lemma seq_trans s t u : seq s t -> seq t u -> seq s u.
 Proof. intros H1 H2 f. rewrite H1. apply H2. Qed.
-Lemma sres_eq_refl a : sres_eq a a. Proof. split; [reflexivity|apply seq_refl]. Qed.
-Lemma sres_eq_sym a b : sres_eq a b -> sres_eq b a.
-Proof. intros [H1 H2]. split; [auto|apply seq_sym; auto]. Qed.
-Lemma sres_eq_trans a b c : sres_eq a b -> sres_eq b c -> sres_eq a c.
-Proof. intros [H1 H2] [H3 H4]. split; [congruence|eapply seq_trans; eauto]. Qed.
+Lemma sec3_eq_trans a b c pend : sec3_eq a b [] -> sec3_eq b c pend -> sec3_eq a c pend.
+Proof.
+  intros (H1 & H2 & H3) (H4 & H5 & H6). repeat split; [congruence|eapply seq_trans; eauto|].
+  rewrite H3. cbn. exact H6.
+Qed.
 
 Lemma supd_ext s1 s2 f v : seq s1 s2 -> seq (supd V s1 f v) (supd V s2 f v).
 Proof. intros H x. unfold supd. destruct (Nat.eqb x f); auto. Qed.
 
-Lemma sec_run_ext p : forall s1 s2, seq s1 s2 -> sres_eq (sec_run s1 p) (sec_run s2 p).
+Lemma sec_run_ext p : forall s1 s2, seq s1 s2 -> sec3_eq (sec_run s1 p) (sec_run s2 p) [].
 Proof.
-  induction p as [r|md k IH|md k IH|f k IH|f v k IH]; intros s1 s2 H; cbn.
-  - split; [reflexivity|exact H].
-  - split; [reflexivity|exact H].
-  - split; [reflexivity|exact H].
+  induction p as [r|m md k IH|m md k IH|f k IH|f v k IH|c IHc k IHk|c IHc k IHk]; intros s1 s2 H; cbn [Monitor.sec_run].
+  - repeat split; auto.
+  - destruct (Nat.eqb m 0); [repeat split; auto|apply IH; exact H].
+  - destruct (Nat.eqb m 0); [repeat split; auto|apply IH; exact H].
   - rewrite (H f). apply IH. exact H.
   - apply IH. apply supd_ext. exact H.
+  - destruct (IHk _ _ H) as (H1 & H2 & H3).
+    destruct (sec_run s1 k) as [[a1 b1] c1], (sec_run s2 k) as [[a2 b2] c2]. cbn in *.
+    subst. repeat split; auto.
+  - destruct (IHc _ _ H) as (H1 & H2 & H3).
+    destruct (sec_run s1 c) as [[a1 b1] c1], (sec_run s2 c) as [[a2 b2] c2]. cbn in *.
+    subst. repeat split; auto.
 Qed.
 
-(* ---- lock-state invariant of the micro-step machine ---------------------------------------- *)
+(* ---- held sets that the discipline produces --------------------------------------------------- *)
+Definition hwf (h : held) : Prop := h = [] \/ hget h 0 = Some MW \/ h = [(0, MR)].
+
+Lemma hwf_none h : hwf h -> hget h 0 = None -> h = [].
+Proof. intros [H|[H|H]] Hn; [auto|congruence|subst; discriminate]. Qed.
+
+Lemma hwf_W h m : hwf h -> holdsW h m = true -> holdsW h 0 = true.
+Proof.
+  unfold holdsW. intros [->|[H| ->]] Hm.
+  - cbn in Hm. discriminate.
+  - rewrite H. reflexivity.
+  - destruct m; cbn in Hm; discriminate.
+Qed.
+
+Lemma hwf_any h m : hwf h -> holdsAny h m = true -> holdsAny h 0 = true.
+Proof.
+  unfold holdsAny. intros [->|[H| ->]] Hm.
+  - cbn in Hm. discriminate.
+  - rewrite H. reflexivity.
+  - reflexivity.
+Qed.
+
+(* ---- lock-state invariant of the micro-step machine (outer mutex) ---------------------------- *)
 Definition count {A} (p : A -> bool) (l : list A) : nat := length (filter p l).
 Lemma count_app {A} (p : A -> bool) a b : count p (a ++ b) = count p a + count p b.
 Proof. unfold count. rewrite filter_app, app_length. reflexivity. Qed.
 Lemma count_cons {A} (p : A -> bool) x l : count p (x :: l) = (if p x then 1 else 0) + count p l.
 Proof. unfold count. cbn. destruct (p x); reflexivity. Qed.
+Lemma count_nil {A} (p : A -> bool) : count p [] = 0. Proof. reflexivity. Qed.
 Lemma count_zero {A} (p : A -> bool) l : count p l = 0 -> forall x, In x l -> p x = false.
 Proof.
   induction l as [|y l IH]; intros H x []; subst; rewrite count_cons in H.
@@ -68,28 +105,109 @@ Proof.
   - apply IH; auto. destruct (p y); [discriminate|exact H].
 Qed.
 
-Definition dW (t : dthread) : bool := match dh V R t with Some MW => true | _ => false end.
-Definition dR (t : dthread) : bool := match dh V R t with Some MR => true | _ => false end.
+Definition dW (t : dthread) : bool := holdsW (dh V R t) 0.
+Definition dR (t : dthread) : bool := holdsR (dh V R t) 0.
+Definition tinv (t : dthread) : Prop := (exists ho, pok ho (dh V R t) (dp V R t)) /\ hwf (dh V R t).
 
 Definition LI (c : dcfg) : Prop :=
-  count dW (dts V R c) = (if dwl V R c then 1 else 0) /\
-  count dR (dts V R c) = drc V R c /\
-  (dwl V R c = true -> drc V R c = 0) /\
-  Forall (fun t => pok (dh V R t) (dp V R t)) (dts V R c).
+  count dW (dts V R c) = (if wl (dlk V R c 0) then 1 else 0) /\
+  count dR (dts V R c) = rc (dlk V R c 0) /\
+  (wl (dlk V R c 0) = true -> rc (dlk V R c 0) = 0) /\
+  Forall tinv (dts V R c).
 
-(* ---- the simulation relation ----------------------------------------------------------------- *)
-(* sc / sa: the stores of the micro-step and of the atomic machine *)
-Definition trel (sc sa : store) (t : dthread) (p : prog) : Prop :=
-  match dh V R t with
+Ltac cnorm := repeat (progress (rewrite ?count_app, ?count_cons, ?count_nil in * )).
+
+Lemma upd_same l m v : upd l m v m = v.
+Proof. unfold upd. rewrite Nat.eqb_refl. reflexivity. Qed.
+Lemma upd_other l m v m0 : m0 <> m -> upd l m v m0 = l m0.
+Proof. unfold upd. intro H. destruct (Nat.eqb_spec m0 m); [congruence|reflexivity]. Qed.
+
+Lemma hget_cons_other m md h : m <> 0 -> hget ((m, md) :: h) 0 = hget h 0.
+Proof. intro H. cbn. destruct (Nat.eqb_spec m 0); [congruence|reflexivity]. Qed.
+
+Lemma LI_step c c' : LI c -> dstep c c' -> LI c'.
+Proof.
+  intros (HW & HR & Hex & Hok) Hs.
+  destruct Hs as [l r h k c m E Hw Hr|l r h k c m E Hw|l r h k c m E|l r h k c m E
+                 |l r h f k c E|l r h f v k c E|l r h ch k c E|l r h ch k c E];
+    rewrite E in *; apply Forall_mid in Hok as (Hl & [[ho Hx] Hwf] & Hrr); cbn [dh dp] in Hx, Hwf;
+    cbn [Monitor.pok] in Hx; unfold LI; cbn [dlk dst dts]; cnorm; unfold dW at 2, dR at 2;
+    unfold dW at 2 in HW; unfold dR at 2 in HR; cbn [dh] in *.
+  - (* AcqW *) destruct Hx as [Hm Hk]. destruct (Nat.eqb_spec m 0) as [->|Hne].
+    + subst h. rewrite upd_same. cbn [wl rc]. rewrite Hw in HW. unfold holdsW, holdsR in *. cbn in *.
+      repeat split; try lia. apply Forall_mid; repeat split; auto; [eauto|right; left; reflexivity].
+    + destruct Hm as [H0 Hn]. rewrite upd_other by auto. unfold holdsW, holdsR in *.
+      rewrite hget_cons_other by exact Hne. repeat split; auto.
+      apply Forall_mid; repeat split; auto; [eauto|].
+      right; left. cbn [dh]. rewrite hget_cons_other by exact Hne. destruct (hget h 0) as [[|]|]; try discriminate; reflexivity.
+  - (* AcqR *) destruct Hx as [Hm Hk]. destruct (Nat.eqb_spec m 0) as [->|Hne].
+    + subst h. rewrite upd_same. cbn [wl rc]. rewrite Hw in *. unfold holdsW, holdsR in *. cbn in *.
+      repeat split; try lia; try discriminate.
+      apply Forall_mid; repeat split; auto; [eauto|right; right; reflexivity].
+    + destruct Hm as [H0 Hn]. rewrite upd_other by auto. unfold holdsW, holdsR in *.
+      rewrite hget_cons_other by exact Hne. repeat split; auto.
+      apply Forall_mid; repeat split; auto; [eauto|].
+      right; left. cbn [dh]. rewrite hget_cons_other by exact Hne. destruct (hget h 0) as [[|]|]; try discriminate; reflexivity.
+  - (* RelW *) destruct Hx as (Hg & H0 & Hk). destruct (Nat.eqb_spec m 0) as [->|Hne].
+    + rewrite (H0 eq_refl) in *. rewrite upd_same. cbn [wl rc]. unfold holdsW, holdsR in *. cbn in *.
+      destruct (wl (dlk V R c 0)); [|lia]. specialize (Hex eq_refl).
+      repeat split; try lia; try discriminate. apply Forall_mid; repeat split; auto; [eauto|left; reflexivity].
+    + rewrite upd_other by auto. unfold holdsW, holdsR in *. rewrite hget_hdel_other by auto.
+      repeat split; auto. apply Forall_mid; repeat split; auto; [eauto|].
+      destruct Hwf as [->|[Hw0| ->]]; [discriminate|right; left; cbn [dh]; rewrite hget_hdel_other by auto; exact Hw0|].
+      destruct m; [congruence|cbn in Hg; discriminate].
+  - (* RelR *) destruct Hx as (Hg & H0 & Hk). destruct (Nat.eqb_spec m 0) as [->|Hne].
+    + rewrite (H0 eq_refl) in *. rewrite upd_same. cbn [wl rc]. unfold holdsW, holdsR in *. cbn in *.
+      repeat split; try lia.
+      * intro Hw. specialize (Hex Hw). lia.
+      * apply Forall_mid; repeat split; auto; [eauto|left; reflexivity].
+    + rewrite upd_other by auto. unfold holdsW, holdsR in *. rewrite hget_hdel_other by auto.
+      repeat split; auto. apply Forall_mid; repeat split; auto; [eauto|].
+      destruct Hwf as [->|[Hw0| ->]]; [discriminate|right; left; cbn [dh]; rewrite hget_hdel_other by auto; exact Hw0|].
+      destruct m; [congruence|cbn in Hg; discriminate].
+  - (* Rd *) destruct Hx as [_ Hk]. repeat split; auto. apply Forall_mid; repeat split; auto. eauto.
+  - (* Wr *) destruct Hx as (_ & _ & Hk). repeat split; auto. apply Forall_mid; repeat split; auto. eauto.
+  - (* Spawn *) destruct Hx as (_ & _ & Hc & Hk).
+    change (dW {| dh := []; dp := ch |}) with false. change (dR {| dh := []; dp := ch |}) with false.
+    change (if false then 1 else 0) with 0 in *.
+    repeat split; try lia; auto.
+    apply Forall_mid; repeat split; auto; [eauto|]. apply Forall_app. split; auto.
+    constructor; [|constructor]. split; [eauto|left; reflexivity].
+  - (* Handoff *) destruct Hx as (_ & -> & Hc & Hk).
+    change (dW {| dh := [(0, MR)]; dp := ch |}) with false. change (dR {| dh := [(0, MR)]; dp := ch |}) with true.
+    change (holdsW [] 0) with false. change (holdsR [] 0) with false.
+    change (holdsW [(0, MR)] 0) with false in HW. change (holdsR [(0, MR)] 0) with true in HR.
+    change (if true then 1 else 0) with 1 in *. change (if false then 1 else 0) with 0 in *.
+    repeat split; try lia; auto.
+    apply Forall_mid; repeat split; auto; [eauto|left; reflexivity|]. apply Forall_app. split; auto.
+    constructor; [|constructor]. split; [eauto|right; right; reflexivity].
+Qed.
+
+(* ---- the simulation relation ------------------------------------------------------------------- *)
+Definition mkth (p : prog) : dthread := {| dh := []; dp := p |}.
+
+(* sc / sa: the stores of the micro-step and of the atomic machine; pend: the goroutines the current
+   exclusive section has started so far (they exist in the micro-step machine only) *)
+Definition trel (sc sa : store) (pend : list prog) (t : dthread) (p : prog) : Prop :=
+  match hget (dh V R t) 0 with
   | None => p = dp V R t
-  | Some md => exists k0, p = PAcq V R md k0 /\ sres_eq (sec_run sa k0) (sec_run sc (dp V R t))
+  | Some MW => exists k0, p = PAcq V R 0 MW k0 /\ sec3_eq (sec_run sa k0) (sec_run sc (dp V R t)) pend
+  | Some MR =>
+      (* the atomic machine has not run the section yet ... *)
+      (exists k0, p = PAcq V R 0 MR k0 /\ sec3_eq (sec_run sa k0) (sec_run sc (dp V R t)) [])
+      (* ... or it ran it at the hand-off, and this is the goroutine finishing it *)
+      \/ (pok false (dh V R t) (dp V R t) /\ p = snd (fst (sec_run sc (dp V R t))))
   end.
 
 Definition Rsim (c : dcfg) (a : acfg) : Prop :=
-  Forall2 (trel (dst V R c) (ast V R a)) (dts V R c) (ats V R a) /\
-  (forall f, exempt f = true -> dst V R c f = ast V R a f) /\
-  (dwl V R c = false -> seq (dst V R c) (ast V R a)) /\
-  LI c.
+  exists main pend,
+    dts V R c = main ++ map mkth pend /\
+    Forall2 (trel (dst V R c) (ast V R a) pend) main (ats V R a) /\
+    Forall quiet pend /\
+    (wl (dlk V R c 0) = false -> pend = []) /\
+    (forall f, exempt f = true -> dst V R c f = ast V R a f) /\
+    (wl (dlk V R c 0) = false -> seq (dst V R c) (ast V R a)) /\
+    LI c.
 
 Lemma Forall2_mid_inv {A B} (P : A -> B -> Prop) l x r ys :
   Forall2 P (l ++ x :: r) ys ->
@@ -111,138 +229,323 @@ Proof.
   - apply IH. intros a b Ha. apply H. right. exact Ha.
 Qed.
 
-Lemma trel_none sc sa sc' sa' t p : dh V R t = None -> trel sc sa t p -> trel sc' sa' t p.
+Lemma Forall2_mkth sc sa pend ps : Forall2 (trel sc sa pend) (map mkth ps) ps.
+Proof. induction ps; cbn; constructor; auto. reflexivity. Qed.
+
+Lemma trel_none sc sa pend sc' sa' pend' t p :
+  hget (dh V R t) 0 = None -> trel sc sa pend t p -> trel sc' sa' pend' t p.
 Proof. unfold trel. intros ->. auto. Qed.
 
-(* while a thread holds the lock exclusively everybody else holds nothing *)
-Lemma writer_alone c l t r :
-  LI c -> dts V R c = l ++ t :: r -> dh V R t = Some MW ->
-  dwl V R c = true /\ forall u, In u l \/ In u r -> dh V R u = None.
+Lemma trel_store_ext sc sa sa' pend t p : seq sa' sa -> trel sc sa pend t p -> trel sc sa' pend t p.
 Proof.
-  intros (HW & HR & Hex & _) E Ht. rewrite E in HW, HR.
-  rewrite count_app, count_cons in HW, HR. unfold dW at 2 in HW. unfold dR at 2 in HR. rewrite Ht in HW, HR.
-  destruct (dwl V R c) eqn:Ew; [|lia]. split; [reflexivity|].
+  intro H. unfold trel. destruct (hget (dh V R t) 0) as [[|]|]; [| |auto].
+  - intros [(k0 & -> & Hs)|Hr]; [left|right; exact Hr]. exists k0. split; [reflexivity|].
+    eapply sec3_eq_trans; [apply sec_run_ext; exact H|exact Hs].
+  - intros (k0 & -> & Hs). exists k0. split; [reflexivity|].
+    eapply sec3_eq_trans; [apply sec_run_ext; exact H|exact Hs].
+Qed.
+
+Lemma app_split {A} (l : list A) t r a b :
+  l ++ t :: r = a ++ b ->
+  (exists r1, a = l ++ t :: r1 /\ r = r1 ++ b) \/ (exists l2, l = a ++ l2 /\ b = l2 ++ t :: r).
+Proof.
+  revert a. induction l as [|x l IH]; intros a E.
+  - destruct a as [|y a]; cbn in E.
+    + right. exists []. cbn. auto.
+    + inversion E; subst. left. exists a. auto.
+  - destruct a as [|y a]; cbn in E.
+    + right. exists (x :: l). cbn. auto.
+    + inversion E as [[Hx E']]; subst. destruct (IH _ E') as [(r1 & -> & ->)|(l2 & -> & ->)].
+      * left. exists r1. auto.
+      * right. exists l2. auto.
+Qed.
+
+(* the thread that takes a step is never one of the goroutines waiting for the section to end *)
+Lemma actor_main c main pend l t r :
+  dts V R c = main ++ map mkth pend -> dts V R c = l ++ t :: r ->
+  Forall quiet pend -> (wl (dlk V R c 0) = false -> pend = []) -> Forall tinv (dts V R c) ->
+  (~ quiet (dp V R t) \/
+   exists m md k, dp V R t = PAcq V R m md k /\ (m = 0 -> wl (dlk V R c 0) = false)) ->
+  exists r1, main = l ++ t :: r1 /\ r = r1 ++ map mkth pend.
+Proof.
+  intros Em E Hq Hp Hinv Hact. rewrite Em in E.
+  destruct (app_split _ _ _ _ _ (eq_sym E)) as [H|(l2 & -> & Hb)]; [exact H|exfalso].
+  assert (In t (map mkth pend)) as Hin by (rewrite Hb; apply in_or_app; right; left; reflexivity).
+  apply in_map_iff in Hin as (p & <- & Hp0).
+  rewrite Forall_forall in Hq. specialize (Hq _ Hp0).
+  destruct Hact as [Hn|(m & md & k & Hd & Hm)]; [apply Hn; exact Hq|].
+  cbn in Hd. subst p.
+  destruct (Nat.eq_dec m 0) as [->|Hne].
+  - rewrite (Hp (Hm eq_refl)) in Hp0. destruct Hp0.
+  - rewrite Forall_forall in Hinv.
+    assert (In (mkth (PAcq V R m md k)) (dts V R c)) as Hi
+      by (rewrite Em; apply in_or_app; right; apply in_map; exact Hp0).
+    destruct (Hinv _ Hi) as [[ho Hk] _]. cbn in Hk. destruct Hk as [Hk _].
+    destruct (Nat.eqb_spec m 0); [congruence|]. destruct Hk as [Hk _]. discriminate.
+Qed.
+
+(* while a thread holds the outer lock exclusively everybody else holds nothing *)
+Lemma writer_alone c l t r :
+  LI c -> dts V R c = l ++ t :: r -> hget (dh V R t) 0 = Some MW ->
+  wl (dlk V R c 0) = true /\ forall u, In u l \/ In u r -> hget (dh V R u) 0 = None.
+Proof.
+  intros (HW & HR & Hex & _) E Ht. rewrite E in HW, HR. cnorm.
+  unfold dW at 2 in HW. unfold dR at 2 in HR. unfold holdsW, holdsR in HW, HR. rewrite Ht in HW, HR.
+  destruct (wl (dlk V R c 0)) eqn:Ew; [|lia]. split; [reflexivity|].
   specialize (Hex eq_refl). rewrite Hex in HR.
   assert (count dW l = 0 /\ count dW r = 0 /\ count dR l = 0 /\ count dR r = 0) as (A & B & C & D) by lia.
   intros u [Hu|Hu].
   - pose proof (count_zero _ _ A u Hu) as H1. pose proof (count_zero _ _ C u Hu) as H2.
-    unfold dW, dR in *. destruct (dh V R u) as [[|]|]; auto; discriminate.
+    unfold dW, dR, holdsW, holdsR in *. destruct (hget (dh V R u) 0) as [[|]|]; auto; discriminate.
   - pose proof (count_zero _ _ B u Hu) as H1. pose proof (count_zero _ _ D u Hu) as H2.
-    unfold dW, dR in *. destruct (dh V R u) as [[|]|]; auto; discriminate.
+    unfold dW, dR, holdsW, holdsR in *. destruct (hget (dh V R u) 0) as [[|]|]; auto; discriminate.
 Qed.
 
-(* while somebody holds the lock shared nobody holds it exclusively *)
 Lemma reader_no_writer c l t r :
-  LI c -> dts V R c = l ++ t :: r -> dh V R t = Some MR -> dwl V R c = false.
+  LI c -> dts V R c = l ++ t :: r -> hget (dh V R t) 0 = Some MR -> wl (dlk V R c 0) = false.
 Proof.
-  intros (HW & HR & Hex & _) E Ht. rewrite E in HR. rewrite count_app, count_cons in HR.
-  unfold dR at 2 in HR. rewrite Ht in HR. destruct (dwl V R c); [|reflexivity].
+  intros (HW & HR & Hex & _) E Ht. rewrite E in HR. cnorm.
+  unfold dR at 2 in HR. unfold holdsR in HR. rewrite Ht in HR. destruct (wl (dlk V R c 0)); [|reflexivity].
   specialize (Hex eq_refl). lia.
 Qed.
 
-Ltac cnorm := rewrite ?count_app, ?count_cons in *.
-
-Lemma LI_step c c' : LI c -> dstep c c' -> LI c'.
+(* a shared section writes nothing, and once handed off starts no goroutine *)
+Lemma sec_run_reader p : forall ho s, pok ho [(0, MR)] p ->
+  fst (fst (sec_run s p)) = s /\ (ho = false -> snd (sec_run s p) = []).
 Proof.
-  intros (HW & HR & Hex & Hok) Hs.
-  destruct Hs as [l r h k c E Hw Hr|l r h k c E Hw|l r h k c E|l r h k c E|l r h f k c E|l r h f v k c E];
-    rewrite E in *; apply Forall_mid in Hok as (Hl & Hx & Hrr); cbn [dh dp] in Hx; cbn [pok] in Hx;
-    unfold LI; cbn [dwl drc dst dts]; cnorm; unfold dW at 2, dR at 2; unfold dW at 2 in HW; unfold dR at 2 in HR;
-    cbn [dh] in *.
-  - destruct Hx as [-> Hk]. rewrite Hw in HW. repeat split; try lia.
-    apply Forall_mid; repeat split; auto.
-  - destruct Hx as [-> Hk]. rewrite Hw in *. repeat split; try lia; try discriminate.
-    apply Forall_mid; repeat split; auto.
-  - destruct Hx as [-> Hk]. destruct (dwl V R c); [|lia]. specialize (Hex eq_refl).
-    repeat split; try lia; try discriminate. apply Forall_mid; repeat split; auto.
-  - destruct Hx as [-> Hk]. repeat split; try lia.
-    + intro Hw. specialize (Hex Hw). lia.
-    + apply Forall_mid; repeat split; auto.
-  - destruct Hx as [_ Hk]. repeat split; auto. apply Forall_mid; repeat split; auto. apply Hk.
-  - destruct Hx as (_ & -> & Hk). repeat split; auto. apply Forall_mid; repeat split; auto.
+  induction p as [r|m md k IH|m md k IH|f k IH|f v k IH|c IHc k IHk|c IHc k IHk]; intros ho s H; cbn [Monitor.pok] in H; cbn [Monitor.sec_run].
+  - discriminate.
+  - destruct H as [H _]. destruct (Nat.eqb m 0); [discriminate|]. destruct H as [H _]. discriminate.
+  - destruct H as (Hg & _ & Hk). destruct (Nat.eqb_spec m 0) as [->|Hne]; [auto|].
+    destruct m; [congruence|discriminate].
+  - destruct H as [_ Hk]. apply (IH _ ho). apply Hk.
+  - destruct H as (_ & Hw & _). unfold holdsW in Hw. cbn in Hw. destruct (guard f); discriminate.
+  - destruct H as (Hw & _). discriminate.
+  - destruct H as (-> & _ & Hc & _). destruct (IHc false s Hc) as [H1 _].
+    destruct (sec_run s c) as [[s' pc] sp]. cbn in *. split; [exact H1|discriminate].
 Qed.
 
-Lemma trel_store_ext sc sa sa' t p : seq sa' sa -> trel sc sa t p -> trel sc sa' t p.
+Lemma mid_assoc {A} (l : list A) x r b : l ++ x :: r ++ b = (l ++ x :: r) ++ b.
+Proof. rewrite <- app_assoc. reflexivity. Qed.
+
+Lemma holdsW_get h : holdsW h 0 = true -> hget h 0 = Some MW.
+Proof. unfold holdsW. destruct (hget h 0) as [[|]|]; congruence. Qed.
+
+(* a thread that holds an inner mutex holds the outer one exclusively *)
+Lemma inner_held h m md : hwf h -> m <> 0 -> hget h m = Some md -> hget h 0 = Some MW.
 Proof.
-  intro H. unfold trel. destruct (dh V R t) as [md|]; [|auto].
-  intros (k0 & -> & Hs). exists k0. split; [reflexivity|].
-  eapply sres_eq_trans; [apply sec_run_ext; exact H|exact Hs].
+  intros [->|[H| ->]] Hne Hg; [discriminate|exact H|].
+  destruct m; [congruence|discriminate].
 Qed.
 
 (* one micro-step is matched by no step or by one step of the atomic machine *)
 Lemma sim_step c a c' :
   Rsim c a -> dstep c c' -> exists a', (a' = a \/ astep a a') /\ Rsim c' a'.
 Proof.
-  intros (HF & Hexm & Hseq & HLI) Hs.
+  intros (main & pend & Em & HF & Hq & Hpe & Hexm & Hseq & HLI) Hs.
   pose proof (LI_step _ _ HLI Hs) as HLI'.
-  pose proof HLI as (_ & _ & _ & Hok).
-  destruct Hs as [l r h k c E Hw Hr|l r h k c E Hw|l r h k c E|l r h k c E|l r h f k c E|l r h f v k c E];
-    pose proof E as E0; rewrite E in HF, Hok;
-    apply Forall2_mid_inv in HF as (l' & y & r' & Ea & Hl & Hx & Hrr);
-    apply Forall_mid in Hok as (_ & Hp & _); cbn [dh dp pok] in Hp; unfold trel in Hx; cbn [dh dp] in Hx.
-  - (* acquire exclusive: the atomic machine waits *)
-    destruct Hp as [-> Hk]. subst y. exists a. split; [auto|].
-    split; [|split; [exact Hexm|split; [discriminate|exact HLI']]].
-    cbn [dts dst]. rewrite Ea. apply Forall2_mid_intro; auto.
-    unfold trel. cbn [dh dp]. exists k. split; [reflexivity|].
-    apply sec_run_ext. apply seq_sym. apply Hseq. exact Hw.
+  pose proof HLI as (_ & _ & _ & Hinv).
+  destruct Hs as [l r h k c m E Hw Hr|l r h k c m E Hw|l r h k c m E|l r h k c m E
+                 |l r h f k c E|l r h f v k c E|l r h ch k c E|l r h ch k c E];
+    pose proof Hinv as Hinv0; rewrite E in Hinv0; apply Forall_mid in Hinv0 as (_ & [[ho Hp] Hwf] & _);
+    cbn [dh dp] in Hp, Hwf; cbn [Monitor.pok] in Hp;
+    (destruct (actor_main c main pend l _ r Em E Hq Hpe Hinv) as (r1 & -> & ->);
+     [first [ right; do 3 eexists; split; [reflexivity|intro; subst; assumption]
+            | left; cbn; tauto ]|]);
+    pose proof E as E0; rewrite mid_assoc in E0;
+    apply Forall2_mid_inv in HF as (l' & y & r1' & Ea & Hl & Hx & Hrr);
+    unfold trel in Hx; cbn [dh dp] in Hx.
+  - (* acquire exclusive *)
+    destruct Hp as [Hm Hk]. destruct (Nat.eqb_spec m 0) as [->|Hne].
+    + (* the outer lock: the atomic machine waits *)
+      subst h. cbn in Hx. subst y. rewrite (Hpe Hw) in *. exists a. split; [auto|].
+      exists (l ++ {| dh := [(0, MW)]; dp := k |} :: r1), []. cbn [dlk dst dts].
+      split; [cbn; rewrite !app_nil_r; reflexivity|].
+      split; [|split; [constructor|split; [rewrite upd_same; discriminate|
+              split; [exact Hexm|split; [rewrite upd_same; discriminate|exact HLI']]]]].
+      rewrite Ea. apply Forall2_mid_intro; auto.
+      unfold trel. cbn. exists k. split; [reflexivity|].
+      apply sec_run_ext. apply seq_sym. apply Hseq. exact Hw.
+    + (* an inner lock, inside an exclusive section *)
+      destruct Hm as [H0 Hn]. apply holdsW_get in H0. rewrite H0 in Hx. destruct Hx as (k0 & -> & Hsec).
+      exists a. split; [auto|].
+      exists (l ++ {| dh := (m, MW) :: h; dp := k |} :: r1), pend. cbn [dlk dst dts].
+      split; [apply mid_assoc|]. rewrite upd_other by auto.
+      split; [|split; [exact Hq|split; [exact Hpe|split; [exact Hexm|split; [exact Hseq|exact HLI']]]]].
+      rewrite Ea. apply Forall2_mid_intro; auto.
+      unfold trel. cbn [dh dp]. rewrite hget_cons_other by exact Hne. rewrite H0.
+      exists k0. split; [reflexivity|]. cbn [Monitor.sec_run] in Hsec.
+      destruct (Nat.eqb_spec m 0); [congruence|exact Hsec].
   - (* acquire shared *)
-    destruct Hp as [-> Hk]. subst y. exists a. split; [auto|].
-    split; [|split; [exact Hexm|split; [intros _; apply Hseq; exact Hw|exact HLI']]].
-    cbn [dts dst]. rewrite Ea. apply Forall2_mid_intro; auto.
-    unfold trel. cbn [dh dp]. exists k. split; [reflexivity|].
-    apply sec_run_ext. apply seq_sym. apply Hseq. exact Hw.
-  - (* release exclusive: the atomic machine runs the whole section now *)
-    destruct Hp as [-> Hk]. destruct Hx as (k0 & -> & Hs1 & Hs2). cbn [sec_run fst snd] in Hs1, Hs2.
-    destruct (writer_alone c l _ r HLI E0 eq_refl) as [_ Hnone].
-    exists {| ast := fst (sec_run (ast V R a) k0); ats := l' ++ snd (sec_run (ast V R a) k0) :: r' |}.
-    split; [right; eapply ASec; eauto|].
-    split; [|split; [|split; [|exact HLI']]]; cbn [dts dst ast ats dwl].
-    + apply Forall2_mid_intro.
-      * eapply Forall2_impl_in; [exact Hl|]. intros u q Hu. apply trel_none. apply Hnone. auto.
-      * unfold trel. cbn [dh dp]. exact Hs1.
-      * eapply Forall2_impl_in; [exact Hrr|]. intros u q Hu. apply trel_none. apply Hnone. auto.
-    + intros f0 _. symmetry. apply Hs2.
-    + intros _. apply seq_sym. exact Hs2.
-  - (* release shared: the reader's section ran on an unchanging store *)
-    destruct Hp as [-> Hk]. destruct Hx as (k0 & -> & Hs1 & Hs2). cbn [sec_run fst snd] in Hs1, Hs2.
-    pose proof (reader_no_writer c l _ r HLI E0 eq_refl) as Hnw. specialize (Hseq Hnw).
-    assert (seq (fst (sec_run (ast V R a) k0)) (ast V R a)) as Hsame
-      by (eapply seq_trans; [exact Hs2|exact Hseq]).
-    exists {| ast := fst (sec_run (ast V R a) k0); ats := l' ++ snd (sec_run (ast V R a) k0) :: r' |}.
-    split; [right; eapply ASec; eauto|].
-    split; [|split; [|split; [|exact HLI']]]; cbn [dts dst ast ats dwl].
-    + apply Forall2_mid_intro.
-      * eapply Forall2_impl_in; [exact Hl|]. intros u q _. apply trel_store_ext. exact Hsame.
-      * unfold trel. cbn [dh dp]. exact Hs1.
-      * eapply Forall2_impl_in; [exact Hrr|]. intros u q _. apply trel_store_ext. exact Hsame.
-    + intros f0 _. symmetry. apply Hs2.
-    + intros _. apply seq_sym. exact Hs2.
+    destruct Hp as [Hm Hk]. destruct (Nat.eqb_spec m 0) as [->|Hne].
+    + subst h. cbn in Hx. subst y. rewrite (Hpe Hw) in *. exists a. split; [auto|].
+      exists (l ++ {| dh := [(0, MR)]; dp := k |} :: r1), []. cbn [dlk dst dts].
+      split; [cbn; rewrite !app_nil_r; reflexivity|].
+      split; [|split; [constructor|split; [auto|
+              split; [exact Hexm|split; [intros _; apply Hseq; exact Hw|exact HLI']]]]].
+      rewrite Ea. apply Forall2_mid_intro; auto.
+      unfold trel. cbn. left. exists k. split; [reflexivity|].
+      apply sec_run_ext. apply seq_sym. apply Hseq. exact Hw.
+    + destruct Hm as [H0 Hn]. apply holdsW_get in H0. rewrite H0 in Hx. destruct Hx as (k0 & -> & Hsec).
+      exists a. split; [auto|].
+      exists (l ++ {| dh := (m, MR) :: h; dp := k |} :: r1), pend. cbn [dlk dst dts].
+      split; [apply mid_assoc|]. rewrite upd_other by auto.
+      split; [|split; [exact Hq|split; [exact Hpe|split; [exact Hexm|split; [exact Hseq|exact HLI']]]]].
+      rewrite Ea. apply Forall2_mid_intro; auto.
+      unfold trel. cbn [dh dp]. rewrite hget_cons_other by exact Hne. rewrite H0.
+      exists k0. split; [reflexivity|]. cbn [Monitor.sec_run] in Hsec.
+      destruct (Nat.eqb_spec m 0); [congruence|exact Hsec].
+  - (* release exclusive *)
+    destruct Hp as (Hg & H0 & Hk). destruct (Nat.eqb_spec m 0) as [->|Hne].
+    + (* the outer lock: the atomic machine runs the whole section now *)
+      rewrite (H0 eq_refl) in *. cbn in Hx. destruct Hx as (k0 & -> & Hs1 & Hs2 & Hs3).
+      cbn [Monitor.sec_run fst snd] in Hs1, Hs2, Hs3. cbn in Hs1, Hs2, Hs3. rewrite app_nil_r in Hs3.
+      destruct (writer_alone c l _ (r1 ++ map mkth pend) HLI E eq_refl) as [_ Hnone].
+      exists {| ast := fst (fst (sec_run (ast V R a) k0));
+                ats := l' ++ snd (fst (sec_run (ast V R a) k0)) :: r1' ++ snd (sec_run (ast V R a) k0) |}.
+      split; [right; eapply ASec; eauto|].
+      exists (l ++ {| dh := []; dp := k |} :: r1 ++ map mkth pend), []. cbn [dlk dst dts ast ats].
+      split; [cbn; rewrite app_nil_r; reflexivity|].
+      split; [|split; [constructor|split; [auto|split; [|split; [|exact HLI']]]]].
+      * rewrite Hs3. apply Forall2_mid_intro.
+        -- eapply Forall2_impl_in; [exact Hl|]. intros u q Hu. apply trel_none. apply Hnone. auto.
+        -- unfold trel. cbn. exact Hs1.
+        -- apply Forall2_app; [|apply Forall2_mkth].
+           eapply Forall2_impl_in; [exact Hrr|]. intros u q Hu. apply trel_none. apply Hnone.
+           right. apply in_or_app. auto.
+      * intros f0 _. symmetry. apply Hs2.
+      * intros _. apply seq_sym. exact Hs2.
+    + (* an inner lock *)
+      pose proof (inner_held _ _ _ Hwf Hne Hg) as Hh0. rewrite Hh0 in Hx. destruct Hx as (k0 & -> & Hsec).
+      exists a. split; [auto|].
+      exists (l ++ {| dh := hdel h m; dp := k |} :: r1), pend. cbn [dlk dst dts].
+      split; [apply mid_assoc|]. rewrite upd_other by auto.
+      split; [|split; [exact Hq|split; [exact Hpe|split; [exact Hexm|split; [exact Hseq|exact HLI']]]]].
+      rewrite Ea. apply Forall2_mid_intro; auto.
+      unfold trel. cbn [dh dp]. rewrite hget_hdel_other by auto. rewrite Hh0.
+      exists k0. split; [reflexivity|]. cbn [Monitor.sec_run] in Hsec.
+      destruct (Nat.eqb_spec m 0); [congruence|exact Hsec].
+  - (* release shared *)
+    destruct Hp as (Hg & H0 & Hk). destruct (Nat.eqb_spec m 0) as [->|Hne].
+    + rewrite (H0 eq_refl) in *. cbn in Hx.
+      pose proof (reader_no_writer c l _ (r1 ++ map mkth pend) HLI E eq_refl) as Hnw.
+      rewrite (Hpe Hnw) in *. specialize (Hseq Hnw).
+      destruct Hx as [(k0 & -> & Hs1 & Hs2 & Hs3)|[_ ->]].
+      * (* the atomic machine runs the section now; it ran on an unchanging store *)
+        cbn [Monitor.sec_run fst snd] in Hs1, Hs2, Hs3. cbn in Hs1, Hs2, Hs3.
+        assert (seq (fst (fst (sec_run (ast V R a) k0))) (ast V R a)) as Hsame
+          by (eapply seq_trans; [exact Hs2|exact Hseq]).
+        exists {| ast := fst (fst (sec_run (ast V R a) k0));
+                  ats := l' ++ snd (fst (sec_run (ast V R a) k0)) :: r1' ++ snd (sec_run (ast V R a) k0) |}.
+        split; [right; eapply ASec; eauto|].
+        exists (l ++ {| dh := []; dp := k |} :: r1), []. cbn [dlk dst dts ast ats].
+        split; [cbn; rewrite !app_nil_r; reflexivity|].
+        split; [|split; [constructor|split; [auto|split; [|split; [|exact HLI']]]]].
+        -- rewrite Hs3, app_nil_r. apply Forall2_mid_intro.
+           ++ eapply Forall2_impl_in; [exact Hl|]. intros u q _. apply trel_store_ext. exact Hsame.
+           ++ unfold trel. cbn. exact Hs1.
+           ++ eapply Forall2_impl_in; [exact Hrr|]. intros u q _. apply trel_store_ext. exact Hsame.
+        -- intros f0 _. symmetry. apply Hs2.
+        -- intros _. apply seq_sym. exact Hs2.
+      * (* the section was run at the hand-off: this goroutine has caught up *)
+        exists a. split; [auto|].
+        exists (l ++ {| dh := []; dp := k |} :: r1), []. cbn [dlk dst dts].
+        split; [cbn; rewrite !app_nil_r; reflexivity|]. rewrite upd_same. cbn [wl].
+        split; [|split; [constructor|split; [auto|split; [exact Hexm|split; [intros _; exact Hseq|exact HLI']]]]].
+        rewrite Ea. apply Forall2_mid_intro; auto. unfold trel. cbn. reflexivity.
+    + pose proof (inner_held _ _ _ Hwf Hne Hg) as Hh0. rewrite Hh0 in Hx. destruct Hx as (k0 & -> & Hsec).
+      exists a. split; [auto|].
+      exists (l ++ {| dh := hdel h m; dp := k |} :: r1), pend. cbn [dlk dst dts].
+      split; [apply mid_assoc|]. rewrite upd_other by auto.
+      split; [|split; [exact Hq|split; [exact Hpe|split; [exact Hexm|split; [exact Hseq|exact HLI']]]]].
+      rewrite Ea. apply Forall2_mid_intro; auto.
+      unfold trel. cbn [dh dp]. rewrite hget_hdel_other by auto. rewrite Hh0.
+      exists k0. split; [reflexivity|]. cbn [Monitor.sec_run] in Hsec.
+      destruct (Nat.eqb_spec m 0); [congruence|exact Hsec].
   - (* read *)
-    destruct Hp as [Hf Hk]. destruct h as [md|].
-    + (* inside a section: the atomic machine waits *)
-      destruct Hx as (k0 & -> & Hsec). exists a. split; [auto|].
-      split; [|split; [exact Hexm|split; [exact Hseq|exact HLI']]].
-      cbn [dts dst]. rewrite Ea. apply Forall2_mid_intro; auto.
-      unfold trel. cbn [dh dp]. exists k0. split; [reflexivity|exact Hsec].
+    destruct Hp as [Hf Hk]. destruct (hget h 0) as [[|]|] eqn:Eh.
+    + (* in a shared section *)
+      exists a. split; [auto|]. exists (l ++ {| dh := h; dp := k (dst V R c f) |} :: r1), pend.
+      cbn [dlk dst dts]. split; [apply mid_assoc|].
+      split; [|split; [exact Hq|split; [exact Hpe|split; [exact Hexm|split; [exact Hseq|exact HLI']]]]].
+      rewrite Ea. apply Forall2_mid_intro; auto. unfold trel. cbn [dh dp]. rewrite Eh.
+      destruct Hx as [(k0 & -> & Hsec)|[Hpk ->]].
+      * left. exists k0. split; [reflexivity|exact Hsec].
+      * right. split; [|reflexivity]. cbn [Monitor.pok] in Hpk. apply Hpk.
+    + (* in an exclusive section *)
+      destruct Hx as (k0 & -> & Hsec).
+      exists a. split; [auto|]. exists (l ++ {| dh := h; dp := k (dst V R c f) |} :: r1), pend.
+      cbn [dlk dst dts]. split; [apply mid_assoc|].
+      split; [|split; [exact Hq|split; [exact Hpe|split; [exact Hexm|split; [exact Hseq|exact HLI']]]]].
+      rewrite Ea. apply Forall2_mid_intro; auto. unfold trel. cbn [dh dp]. rewrite Eh.
+      exists k0. split; [reflexivity|exact Hsec].
     + (* outside: only fields that are never written; both machines read the same value *)
-      destruct Hf as [Hf|Hf]; [|congruence]. subst y.
-      exists {| ast := ast V R a; ats := l' ++ k (ast V R a f) :: r' |}.
+      pose proof (hwf_none _ Hwf Eh) as ->. subst y.
+      destruct Hf as [Hf|Hf]; [|discriminate].
+      exists {| ast := ast V R a; ats := l' ++ k (ast V R a f) :: r1' |}.
       split; [right; eapply ARd; eauto|].
-      split; [|split; [exact Hexm|split; [exact Hseq|exact HLI']]].
-      cbn [dts dst ast ats]. apply Forall2_mid_intro; auto.
-      unfold trel. cbn [dh dp]. rewrite (Hexm f Hf). reflexivity.
+      exists (l ++ {| dh := []; dp := k (dst V R c f) |} :: r1), pend. cbn [dlk dst dts ast ats].
+      split; [apply mid_assoc|].
+      split; [|split; [exact Hq|split; [exact Hpe|split; [exact Hexm|split; [exact Hseq|exact HLI']]]]].
+      apply Forall2_mid_intro; auto. unfold trel. cbn. rewrite (Hexm f Hf). reflexivity.
   - (* write: only inside an exclusive section; everybody else holds nothing *)
-    destruct Hp as (Hf & -> & Hk). destruct Hx as (k0 & -> & Hsec).
-    destruct (writer_alone c l _ r HLI E0 eq_refl) as [Hwl Hnone].
-    exists a. split; [auto|].
-    split; [|split; [|split; [|exact HLI']]]; cbn [dts dst dwl].
+    destruct Hp as (Hf & Hw & Hk). pose proof (holdsW_get _ (hwf_W _ _ Hwf Hw)) as Hh0.
+    rewrite Hh0 in Hx. destruct Hx as (k0 & -> & Hsec).
+    destruct (writer_alone c l _ (r1 ++ map mkth pend) HLI E Hh0) as [Hwl Hnone].
+    exists a. split; [auto|]. exists (l ++ {| dh := h; dp := k |} :: r1), pend.
+    cbn [dlk dst dts]. split; [apply mid_assoc|].
+    split; [|split; [exact Hq|split; [exact Hpe|split; [|split; [rewrite Hwl; discriminate|exact HLI']]]]].
     + rewrite Ea. apply Forall2_mid_intro.
       * eapply Forall2_impl_in; [exact Hl|]. intros u q Hu. apply trel_none. apply Hnone. auto.
-      * unfold trel. cbn [dh dp]. exists k0. split; [reflexivity|exact Hsec].
-      * eapply Forall2_impl_in; [exact Hrr|]. intros u q Hu. apply trel_none. apply Hnone. auto.
+      * unfold trel. cbn [dh dp]. rewrite Hh0. exists k0. split; [reflexivity|exact Hsec].
+      * eapply Forall2_impl_in; [exact Hrr|]. intros u q Hu. apply trel_none. apply Hnone.
+        right. apply in_or_app. auto.
     + intros f0 Hf0. unfold supd. destruct (Nat.eqb_spec f0 f) as [->|_]; [congruence|auto].
-    + rewrite Hwl. discriminate.
+  - (* a goroutine is started inside an exclusive section: it waits, the atomic machine creates it
+       when it runs the section *)
+    destruct Hp as (Hw & Hqc & Hc & Hk). pose proof (holdsW_get _ Hw) as Hh0.
+    rewrite Hh0 in Hx. destruct Hx as (k0 & -> & Hs1 & Hs2 & Hs3).
+    destruct (writer_alone c l _ (r1 ++ map mkth pend) HLI E Hh0) as [Hwl Hnone].
+    exists a. split; [auto|]. exists (l ++ {| dh := h; dp := k |} :: r1), (pend ++ [ch]).
+    cbn [dlk dst dts].
+    split; [rewrite map_app; cbn; rewrite <- !app_assoc; reflexivity|].
+    split; [|split; [apply Forall_app; split; [exact Hq|constructor; [exact Hqc|constructor]]|
+            split; [rewrite Hwl; discriminate|split; [exact Hexm|split; [exact Hseq|exact HLI']]]]].
+    rewrite Ea. apply Forall2_mid_intro.
+    + eapply Forall2_impl_in; [exact Hl|]. intros u q Hu. apply trel_none. apply Hnone. auto.
+    + unfold trel. cbn [dh dp]. rewrite Hh0. exists k0. split; [reflexivity|].
+      cbn [Monitor.sec_run] in Hs1, Hs2, Hs3.
+      destruct (sec_run (dst V R c) k) as [[s2 p2] sp2]. cbn in *.
+      repeat split; auto. rewrite Hs3, <- app_assoc. reflexivity.
+    + eapply Forall2_impl_in; [exact Hrr|]. intros u q Hu. apply trel_none. apply Hnone.
+      right. apply in_or_app. auto.
+  - (* hand-off of a shared section: the atomic machine runs the whole section now *)
+    destruct Hp as (-> & -> & Hc & Hk). cbn in Hx.
+    pose proof (reader_no_writer c l _ (r1 ++ map mkth pend) HLI E eq_refl) as Hnw.
+    rewrite (Hpe Hnw) in *. specialize (Hseq Hnw).
+    destruct Hx as [(k0 & -> & Hs1 & Hs2 & Hs3)|[Hpk _]]; [|cbn in Hpk; destruct Hpk; discriminate].
+    cbn [Monitor.sec_run] in Hs1, Hs2, Hs3.
+    destruct (sec_run_reader ch false (dst V R c) Hc) as [Hst Hsp]. specialize (Hsp eq_refl).
+    destruct (sec_run (dst V R c) ch) as [[s2 pc] sp2] eqn:Esc. cbn in Hst, Hsp, Hs1, Hs2, Hs3. subst s2 sp2.
+    cbn in Hs3.
+    assert (seq (fst (fst (sec_run (ast V R a) k0))) (ast V R a)) as Hsame
+      by (eapply seq_trans; [exact Hs2|exact Hseq]).
+    exists {| ast := fst (fst (sec_run (ast V R a) k0));
+              ats := l' ++ snd (fst (sec_run (ast V R a) k0)) :: r1' ++ snd (sec_run (ast V R a) k0) |}.
+    split; [right; eapply ASec; eauto|].
+    exists (l ++ {| dh := []; dp := k |} :: r1 ++ [{| dh := [(0, MR)]; dp := ch |}]), [].
+    cbn [dlk dst dts ast ats].
+    split; [cbn; rewrite !app_nil_r; reflexivity|].
+    split; [|split; [constructor|split; [auto|split; [|split; [|exact HLI']]]]].
+    + rewrite Hs3. apply Forall2_mid_intro.
+      * eapply Forall2_impl_in; [exact Hl|]. intros u q _. apply trel_store_ext. exact Hsame.
+      * unfold trel. cbn. exact Hs1.
+      * apply Forall2_app.
+        -- eapply Forall2_impl_in; [exact Hrr|]. intros u q _. apply trel_store_ext. exact Hsame.
+        -- constructor; [|constructor]. unfold trel. cbn [dh dp]. cbn. right.
+           split; [exact Hc|]. rewrite Esc. reflexivity.
+    + intros f0 _. symmetry. apply Hs2.
+    + intros _. apply seq_sym. exact Hs2.
 Qed.
 
 Lemma sim_steps c a c' :
@@ -254,127 +557,181 @@ Proof.
   - exists a2. split; [econstructor; eauto|exact HR2].
 Qed.
 
-Lemma Rsim_init s ps : Forall (pok None) ps -> Rsim (dinit V R s ps) (ainit V R s ps).
+Lemma Rsim_init s ps : Forall (pok true []) ps -> Rsim (dinit V R s ps) (ainit V R s ps).
 Proof.
-  intro Hp. unfold Rsim, dinit, ainit. cbn [dts dst ast ats dwl drc].
-  split; [|split; [auto|split; [intros _; apply seq_refl|]]].
-  - induction ps as [|p ps IH]; cbn; constructor; [reflexivity|]. apply IH. inversion Hp; auto.
-  - unfold LI. cbn [dts dwl drc]. repeat split; try discriminate.
-    + clear. induction ps as [|p ps IH]; cbn; auto.
-    + clear. induction ps as [|p ps IH]; cbn; auto.
-    + induction Hp; cbn; constructor; auto.
+  intro Hp. exists (map mkth ps), []. unfold dinit, ainit. cbn [dts dst dlk ast ats wl rc].
+  split; [cbn; rewrite app_nil_r; reflexivity|].
+  split; [apply Forall2_mkth|]. split; [constructor|]. split; [auto|]. split; [auto|].
+  split; [intros _; apply seq_refl|].
+  unfold LI. cbn [dts dlk wl rc]. repeat split; try discriminate.
+  - clear. induction ps as [|p ps IH]; cbn; auto.
+  - clear. induction ps as [|p ps IH]; cbn; auto.
+  - induction Hp; cbn; constructor; auto. split; [eauto|left; reflexivity].
 Qed.
 
 (* The reduction theorem: whatever the micro-step machine reaches, the atomic-section machine
    reaches a state that agrees with it on every thread that is outside a critical section and, when
-   no writer is inside one, on the whole store. *)
+   no writer is inside one, on the whole store.  ([pend]: goroutines an open exclusive section has
+   already started; the atomic machine creates them when it runs that section.) *)
 Theorem micro_steps_reduce_to_atomic_sections s ps c :
-  Forall (pok None) ps ->
+  Forall (pok true []) ps ->
   dsteps (dinit V R s ps) c ->
-  exists a, asteps (ainit V R s ps) a /\
-    Forall2 (fun t p => dh V R t = None -> p = dp V R t) (dts V R c) (ats V R a) /\
-    (dwl V R c = false -> forall f, dst V R c f = ast V R a f).
+  exists a main pend, asteps (ainit V R s ps) a /\
+    dts V R c = main ++ map mkth pend /\
+    Forall2 (fun t p => hget (dh V R t) 0 = None -> p = dp V R t) main (ats V R a) /\
+    (wl (dlk V R c 0) = false -> pend = [] /\ forall f, dst V R c f = ast V R a f).
 Proof.
-  intros Hp Hs. destruct (sim_steps _ _ _ (Rsim_init s ps Hp) Hs) as (a & Ha & HF & _ & Hseq & _).
-  exists a. repeat split; auto.
-  eapply Forall2_impl_in; [exact HF|]. intros t p _ Ht Hn. unfold trel in Ht. rewrite Hn in Ht. exact Ht.
+  intros Hp Hs. destruct (sim_steps _ _ _ (Rsim_init s ps Hp) Hs) as (a & Ha & main & pend & Em & HF & _ & Hpe & _ & Hseq & _).
+  exists a, main, pend. repeat split; auto.
+  - eapply Forall2_impl_in; [exact HF|]. intros t p _ Ht Hn. unfold trel in Ht. rewrite Hn in Ht. exact Ht.
+  - apply Hseq. assumption.
 Qed.
 
-(* in particular: a terminated execution (every call has returned) ends with the store and the
-   results of an execution of atomically executed sections *)
+(* in particular: a terminated execution (every call has returned, every goroutine has ended) ends
+   with the store and the results of an execution of atomically executed sections *)
 Corollary terminated_runs_are_atomic s ps c rs :
-  Forall (pok None) ps ->
+  Forall (pok true []) ps ->
   dsteps (dinit V R s ps) c ->
-  dts V R c = map (fun r => {| dh := None; dp := PRet V R r |}) rs ->
+  dts V R c = map (fun r => {| dh := []; dp := PRet V R r |}) rs ->
   exists a, asteps (ainit V R s ps) a /\ ats V R a = map (PRet V R) rs /\
             forall f, dst V R c f = ast V R a f.
 Proof.
-  intros Hp Hs Hfin. destruct (sim_steps _ _ _ (Rsim_init s ps Hp) Hs) as (a & Ha & HF & _ & Hseq & HLI).
-  exists a. split; [exact Ha|].
-  assert (ats V R a = map (PRet V R) rs) as Hats.
-  { rewrite Hfin in HF. clear - HF. revert HF. generalize (ats V R a). induction rs as [|r rs IH]; intros ps' H; inversion H; subst; cbn.
-    - reflexivity.
-    - unfold trel in H2. cbn in H2. subst. f_equal. apply IH. assumption. }
-  split; [exact Hats|]. apply Hseq.
-  destruct HLI as (HW & _). rewrite Hfin in HW. destruct (dwl V R c); [|reflexivity].
-  exfalso. clear - HW. assert (count dW (map (fun r => {| dh := None; dp := PRet V R r |}) rs) = 0) as Z
-    by (induction rs; cbn; auto). lia.
+  intros Hp Hs Hfin.
+  destruct (sim_steps _ _ _ (Rsim_init s ps Hp) Hs) as (a & Ha & main & pend & Em & HF & _ & Hpe & _ & Hseq & HLI).
+  assert (wl (dlk V R c 0) = false) as Hwl.
+  { destruct HLI as (HW & _). rewrite Hfin in HW. destruct (wl (dlk V R c 0)); [|reflexivity].
+    exfalso. clear - HW. assert (count dW (map (fun r => {| dh := []; dp := PRet V R r |}) rs) = 0) as Z
+      by (induction rs; cbn; auto). lia. }
+  rewrite (Hpe Hwl) in Em. cbn in Em. rewrite app_nil_r in Em. subst main.
+  exists a. split; [exact Ha|]. split; [|apply Hseq; exact Hwl].
+  rewrite Hfin in HF. clear - HF. revert HF. generalize (ats V R a).
+  induction rs as [|r rs IH]; intros ps' H; inversion H; subst; cbn; [reflexivity|].
+  match goal with Ht : trel _ _ _ _ _ |- _ => unfold trel in Ht; cbn in Ht; subst end.
+  f_equal. apply IH. assumption.
 Qed.
-
+(* ---- from act traces to resumptions ---------------------------------------------------------------
+   The discipline on resumptions follows from what is checked on their act traces ([ok] and the shape
+   check, which is what harness/lockfacts extracts and MonitorFacts.v computes), for resumptions that
+   start no goroutine. *)
 Variable v0 : V.   (* values exist *)
-Lemma ptrace_exists p : exists t, ptrace V R p t.
+Notation ptrace := (ptrace V R).
+Notation nospawn := (nospawn V R).
+
+Lemma ptrace_exists p : nospawn p -> exists t, ptrace p t.
 Proof.
-  induction p as [r|md k [t IH]|md k [t IH]|f k IH|f v k [t IH]].
+  induction p as [r|m md k IH|m md k IH|f k IH|f v k IH|c _ k _|c _ k _]; cbn; intro Hn; try tauto.
   - eexists. constructor.
-  - eexists. constructor. exact IH.
-  - eexists. constructor. exact IH.
-  - destruct (IH v0) as [t Ht]. eexists. econstructor. exact Ht.
-  - eexists. constructor. exact IH.
+  - destruct (IH Hn) as [t Ht]. eexists. constructor. exact Ht.
+  - destruct (IH Hn) as [t Ht]. eexists. constructor. exact Ht.
+  - destruct (IH v0 (Hn v0)) as [t Ht]. eexists. econstructor. exact Ht.
+  - destruct (IH Hn) as [t Ht]. eexists. constructor. exact Ht.
 Qed.
 
-(* the discipline on resumptions follows from the discipline on their act traces (what the
-   translator extracts): single mutex 0, every field guarded by it *)
-Lemma pok_of_traces listed tbl p : forall h : option mode,
-  (forall t, ptrace V R p t ->
-     ok (fun _ => 0) exempt listed tbl (match h with Some md => [(0, md)] | None => [] end) t = true) ->
-  pok h p.
+Lemma single_held h md : length h = 1 -> hget h 0 = Some md -> h = [(0, md)].
 Proof.
-  induction p as [r|md k IH|md k IH|f k IH|f v k IH]; intros h H; cbn [pok].
-  - specialize (H [] (pt_ret V R r)). destruct h; [discriminate|reflexivity].
-  - assert (h = None) as ->.
-    { destruct (ptrace_exists k) as [t Ht]. specialize (H _ (pt_acq V R md k t Ht)).
-      rewrite ok_cons in H. cbn in H. destruct h; [discriminate|reflexivity]. }
-    split; [reflexivity|]. apply IH. intros t Ht. specialize (H _ (pt_acq V R md k t Ht)).
-    rewrite ok_cons in H. cbn in H. exact H.
-  - assert (h = Some md) as ->.
-    { destruct (ptrace_exists k) as [t Ht]. specialize (H _ (pt_rel V R md k t Ht)).
-      rewrite ok_cons in H. cbn in H. destruct h as [md'|]; [|discriminate]. cbn in H.
-      destruct (mode_eqb md md') eqn:E; [|discriminate]. apply mode_eqb_eq in E. congruence. }
-    split; [reflexivity|]. apply IH. intros t Ht. specialize (H _ (pt_rel V R md k t Ht)).
-    rewrite ok_cons in H. cbn in H. destruct md; cbn in H; exact H.
+  destruct h as [|[x y] [|]]; cbn; try discriminate. intros _.
+  destruct (Nat.eqb_spec x 0) as [->|]; [|discriminate]. congruence.
+Qed.
+
+Lemma pok_of_traces listed tbl p : forall ho h,
+  nospawn p ->
+  (forall t, ptrace p t ->
+     ok guard exempt listed tbl h t = true /\ shape_code tbl h t = true) ->
+  pok ho h p.
+Proof.
+  induction p as [r|m md k IH|m md k IH|f k IH|f v k IH|c _ k _|c _ k _]; intros ho h Hn H; cbn [Monitor.pok]; cbn in Hn; try tauto.
+  - destruct (H [] (pt_ret V R r)) as [Ho _]. apply ok_nil in Ho. exact Ho.
+  - destruct (ptrace_exists k Hn) as [t0 Ht0].
+    destruct (H _ (pt_acq V R m md k t0 Ht0)) as [Ho Hs]. rewrite ok_cons in Ho. cbn [Monitor.step_ok] in Ho; cbn [Monitor.shape_code Monitor.shape_act Monitor.hnext] in Hs.
+    destruct (forallb (fun e => fst e <? m) h) eqn:Ef; [|discriminate].
+    apply andb_prop in Hs as [Hs _]. split.
+    + destruct (Nat.eqb_spec m 0) as [->|Hne].
+      * destruct h as [|[x y] h']; [reflexivity|]. cbn in Ef. destruct (x <? 0) eqn:E; [|discriminate].
+        apply Nat.ltb_lt in E. lia.
+      * cbn in Hs. split; [exact Hs|apply hget_lt_none; exact Ef].
+    + apply IH; [exact Hn|]. intros t Ht. destruct (H _ (pt_acq V R m md k t Ht)) as [Ho' Hs'].
+      rewrite ok_cons in Ho'. cbn [Monitor.step_ok] in Ho'; cbn [Monitor.shape_code Monitor.shape_act Monitor.hnext] in Hs'. rewrite Ef in Ho'. apply andb_prop in Hs' as [_ Hs'']. auto.
+  - destruct (ptrace_exists k Hn) as [t0 Ht0].
+    destruct (H _ (pt_rel V R m md k t0 Ht0)) as [Ho Hs]. rewrite ok_cons in Ho. cbn [Monitor.step_ok] in Ho; cbn [Monitor.shape_code Monitor.shape_act Monitor.hnext] in Hs.
+    destruct (hget h m) as [md'|] eqn:Eg; [|discriminate].
+    destruct (mode_eqb md md') eqn:Em; [|discriminate]. apply mode_eqb_eq in Em. subst md'.
+    apply andb_prop in Hs as [Hs _]. split; [reflexivity|]. split.
+    + intros ->. cbn in Hs. apply Nat.eqb_eq in Hs. apply single_held; assumption.
+    + apply IH; [exact Hn|]. intros t Ht. destruct (H _ (pt_rel V R m md k t Ht)) as [Ho' Hs'].
+      rewrite ok_cons in Ho'. cbn [Monitor.step_ok] in Ho'; cbn [Monitor.shape_code Monitor.shape_act Monitor.hnext] in Hs'. rewrite Eg in Ho'.
+      replace (mode_eqb md md) with true in Ho' by (destruct md; reflexivity).
+      apply andb_prop in Hs' as [_ Hs'']. auto.
   - split.
-    + destruct (ptrace_exists (k v0)) as [t Ht].
-      specialize (H _ (pt_rd V R f k v0 t Ht)). rewrite ok_cons in H. cbn in H.
-      destruct (exempt f); [auto|]. right. destruct h; [discriminate|]. cbn in H. discriminate.
-    + intro v. apply IH. intros t Ht. specialize (H _ (pt_rd V R f k v t Ht)).
-      rewrite ok_cons in H. cbn in H. destruct (exempt f || holdsAny _ 0); [exact H|discriminate].
-  - destruct (ptrace_exists k) as [t Ht]. pose proof (H _ (pt_wr V R f v k t Ht)) as H0.
-    rewrite ok_cons in H0. cbn in H0. destruct (exempt f) eqn:Ef; cbn in H0; [discriminate|].
-    split; [reflexivity|]. destruct h as [[|]|]; cbn in H0; try discriminate.
-    split; [reflexivity|]. apply IH. intros t' Ht'. specialize (H _ (pt_wr V R f v k t' Ht')).
-    rewrite ok_cons in H. cbn in H. rewrite Ef in H. cbn in H. exact H.
+    + destruct (ptrace_exists (k v0) (Hn v0)) as [t0 Ht0].
+      destruct (H _ (pt_rd V R f k v0 t0 Ht0)) as [Ho _]. rewrite ok_cons in Ho. cbn [Monitor.step_ok] in Ho.
+      destruct (exempt f); [auto|]. right. cbn in Ho. destruct (holdsAny h (guard f)); [reflexivity|discriminate].
+    + intro v. apply IH; [apply Hn|]. intros t Ht. destruct (H _ (pt_rd V R f k v t Ht)) as [Ho' Hs'].
+      rewrite ok_cons in Ho'. cbn [Monitor.step_ok] in Ho'; cbn [Monitor.shape_code Monitor.shape_act Monitor.hnext] in Hs'. destruct (exempt f || holdsAny h (guard f)); [auto|discriminate].
+  - destruct (ptrace_exists k Hn) as [t0 Ht0].
+    destruct (H _ (pt_wr V R f v k t0 Ht0)) as [Ho _]. rewrite ok_cons in Ho. cbn [Monitor.step_ok] in Ho.
+    destruct (exempt f) eqn:Ef; cbn in Ho; [discriminate|].
+    destruct (holdsW h (guard f)) eqn:Ew; [|discriminate]. repeat split; auto.
+    apply IH; [exact Hn|]. intros t Ht. destruct (H _ (pt_wr V R f v k t Ht)) as [Ho' Hs'].
+    rewrite ok_cons in Ho'. cbn [Monitor.step_ok] in Ho'; cbn [Monitor.shape_code Monitor.shape_act Monitor.hnext] in Hs'. rewrite Ef, Ew in Ho'. cbn in Ho'. auto.
 Qed.
 End Reduce.
 
 (* ---- non-vacuity ------------------------------------------------------------------------------
-   Two calls that increment a counter (field 1) under the exclusive lock and return the value they
-   saw, and one call that reads it under the shared lock after looking at a never-written field 0. *)
+   field 0: never written; field 1: a counter guarded by the outer mutex 0; field 2: guarded by the
+   inner mutex 1 (taken only inside an exclusive outer section). *)
 Definition ex_exempt (f : nat) : bool := Nat.eqb f 0.
-Definition ex_inc : prog nat nat :=
-  PAcq nat nat MW (PRd nat nat 1 (fun v => PWr nat nat 1 (S v) (PRel nat nat MW (PRet nat nat v)))).
-Definition ex_get : prog nat nat :=
-  PRd nat nat 0 (fun _ => PAcq nat nat MR (PRd nat nat 1 (fun v => PRel nat nat MR (PRet nat nat v)))).
+Definition ex_guard (f : nat) : nat := if Nat.eqb f 2 then 1 else 0.
+Notation xp := (prog nat nat).
+(* increment the counter under the exclusive lock and return the value seen *)
+Definition ex_inc : xp :=
+  PAcq _ _ 0 MW (PRd _ _ 1 (fun v => PWr _ _ 1 (S v) (PRel _ _ 0 MW (PRet _ _ v)))).
+(* read the counter under the shared lock after looking at the never-written field *)
+Definition ex_get : xp :=
+  PRd _ _ 0 (fun _ => PAcq _ _ 0 MR (PRd _ _ 1 (fun v => PRel _ _ 0 MR (PRet _ _ v)))).
+(* the nested pair (DeferredCarWriter.Put -> StorageCar.Put): outer lock, then the inner one around
+   the inner object's field *)
+Definition ex_nested : xp :=
+  PAcq _ _ 0 MW (PRd _ _ 1 (fun v =>
+    PAcq _ _ 1 MW (PWr _ _ 2 v (PRel _ _ 1 MW (PRel _ _ 0 MW (PRet _ _ v)))))).
+(* lock hand-off (ReadOnly.AllKeysChan): take the shared lock, read, start a goroutine that keeps
+   reading under the inherited lock and releases it; the caller returns at once *)
+Definition ex_handoff : xp :=
+  PAcq _ _ 0 MR (PRd _ _ 1 (fun v =>
+    PHandoff _ _ (PRd _ _ 1 (fun w => PRel _ _ 0 MR (PRet _ _ w))) (PRet _ _ v))).
+(* a goroutine started inside an exclusive section (ReadWrite.AllKeysChan after the repair): the
+   section takes a snapshot, the goroutine only returns it *)
+Definition ex_spawn : xp :=
+  PAcq _ _ 0 MW (PRd _ _ 1 (fun v => PSpawn _ _ (PRet _ _ v) (PRel _ _ 0 MW (PRet _ _ 0)))).
 
-Example ex_progs_disciplined : Forall (pok nat nat ex_exempt None) [ex_inc; ex_get; ex_inc].
+Example ex_progs_disciplined :
+  Forall (pok nat nat ex_exempt ex_guard true []) [ex_inc; ex_get; ex_nested; ex_handoff; ex_spawn].
 Proof.
-  assert (pok nat nat ex_exempt None ex_inc) as Hinc.
-  { cbn. split; [reflexivity|]. split; [right; discriminate|]. intro v. repeat split; reflexivity. }
-  assert (pok nat nat ex_exempt None ex_get) as Hget.
-  { cbn. split; [left; reflexivity|]. intros _. split; [reflexivity|]. split; [right; discriminate|].
-    intro v. split; reflexivity. }
-  constructor; [exact Hinc|constructor; [exact Hget|constructor; [exact Hinc|constructor]]].
+  assert (pok nat nat ex_exempt ex_guard true [] ex_inc) as H1.
+  { cbn. split; [reflexivity|]. split; [right; reflexivity|]. intro v. repeat split; reflexivity. }
+  assert (pok nat nat ex_exempt ex_guard true [] ex_get) as H2.
+  { cbn. split; [left; reflexivity|]. intros _. split; [reflexivity|]. split; [right; reflexivity|].
+    intro v. repeat split; reflexivity. }
+  assert (pok nat nat ex_exempt ex_guard true [] ex_nested) as H3.
+  { cbn. split; [reflexivity|]. split; [right; reflexivity|]. intro v.
+    split; [split; reflexivity|]. repeat split; try reflexivity. intro H; discriminate. }
+  assert (pok nat nat ex_exempt ex_guard true [] ex_handoff) as H4.
+  { cbn. split; [reflexivity|]. split; [right; reflexivity|]. intro v.
+    repeat split; try reflexivity. right; reflexivity. }
+  assert (pok nat nat ex_exempt ex_guard true [] ex_spawn) as H5.
+  { cbn. split; [reflexivity|]. split; [right; reflexivity|]. intro v. repeat split; reflexivity. }
+  repeat (constructor; [assumption|]). constructor.
 Qed.
 
-(* a reachable micro-step configuration in which the first call is in the middle of its section
-   (it has read the counter, not yet written it) while the reader has done its unlocked read *)
+(* a reachable micro-step configuration: the nested call is inside both locks, having read the counter *)
 Example ex_progs_interleave :
-  exists c, dsteps nat nat (dinit nat nat (fun _ => 7) [ex_inc; ex_get; ex_inc]) c /\
-            dwl nat nat c = true /\ length (dts nat nat c) = 3.
+  exists c, dsteps nat nat (dinit nat nat (fun _ => 7) [ex_inc; ex_get; ex_nested]) c /\
+            wl (dlk nat nat c 0) = true /\ wl (dlk nat nat c 1) = true /\ length (dts nat nat c) = 3.
 Proof.
   eexists. split.
-  - eapply dsteps_trans; [eapply dsteps_trans; [eapply dsteps_trans; [apply dsteps_refl|]|]|].
-    + eapply (DRd nat nat [_] [_] None 0). reflexivity.
-    + eapply (DAcqW nat nat [] [_; _] None); reflexivity.
-    + eapply (DRd nat nat [] [_; _] (Some MW) 1). reflexivity.
-  - split; reflexivity.
+  - eapply dsteps_trans; [eapply dsteps_trans; [eapply dsteps_trans; [eapply dsteps_trans; [apply dsteps_refl|]|]|]|].
+    + eapply (DRd nat nat [_] [_] [] 0). reflexivity.
+    + eapply (DAcqW nat nat [_; _] [] [] _ _ 0); reflexivity.
+    + eapply (DRd nat nat [_; _] [] [(0, MW)] 1). reflexivity.
+    + eapply (DAcqW nat nat [_; _] [] [(0, MW)] _ _ 1); reflexivity.
+  - repeat split; reflexivity.
 Qed.
